@@ -1,5 +1,6 @@
 import Drivers.Common
 import Shentu.Model.Staking
+import Shentu.Base.Dec
 /- Staking: the flat observation of validators and unbonding entries, and the C09 monitors. -/
 namespace Drivers.StakingD
 open Lean Shentu Shentu.Staking
@@ -7,6 +8,7 @@ open Lean Shentu Shentu.Staking
 structure ObsVal where
   v : Val
   status : Nat          -- 1 unbonded, 2 unbonding, 3 bonded
+  shares : Dec := Dec.zero
   deriving Inhabited
 
 structure Red where
@@ -21,13 +23,19 @@ structure Obs where
   vals : List ObsVal := []
   ubds : List Ubd := []
   reds : List Red := []
+  dels : List (Addr × Addr × Dec) := []    -- delegator, validator operator, shares
+  bondedPool : Int := 0
+  notBondedPool : Int := 0
   maxN : Nat := 100
   unbondingNs : Int := 0
   deriving Inhabited
 
 def parse (j : Json) : Obs :=
   { vals := (J.arrOf j "vals2").map (fun x =>
-      { v := { op := J.strOf x "op", pk := J.strOf x "pk", tokens := J.intOf x "tokens", jailed := J.boolOf x "jailed" }, status := (J.intOf x "status").toNat }),
+      { v := { op := J.strOf x "op", pk := J.strOf x "pk", tokens := J.intOf x "tokens", jailed := J.boolOf x "jailed" }, status := (J.intOf x "status").toNat,
+        shares := ⟨J.decRaw (J.strOf x "shares")⟩ }),
+    dels := (J.arrOf j "delegations").map (fun d => (J.strOf d "delegator_address", J.strOf d "validator_address", (⟨J.decRaw (J.strOf d "shares")⟩ : Dec))),
+    bondedPool := Coins.amountOf (J.coinsOf j "bonded_pool") "uctk", notBondedPool := Coins.amountOf (J.coinsOf j "notbonded_pool") "uctk",
     ubds := (J.arrOf j "ubds2").map (fun x =>
       { del := J.strOf x "del", val := J.strOf x "val", balance := J.intOf x "balance", time := J.intOf x "t", height := J.intOf x "h" }),
     reds := (J.arrOf j "reds2").map (fun x =>
@@ -47,6 +55,21 @@ def cutDecided (o : Obs) : Bool :=
   | _ => true
 
 def sortUpd (us : View) : View := us.foldr insStr []
+
+/-- the tokens a delegator's shares are worth: Σ over its delegations of trunc(shares × validator tokens / validator shares)
+    (`Validator.TokensFromShares`), the bonded stake that backs a provider's collateral -/
+def stakeOf (o : Obs) (a : Addr) : Int :=
+  (o.dels.filter (·.1 == a)).foldl (fun acc d =>
+    match o.vals.find? (·.v.op == d.2.1) with
+    | some v => if v.shares.raw == 0 then acc else acc + Dec.truncateInt (Dec.quo (Dec.mulInt d.2.2 v.v.tokens) v.shares)
+    | none => acc) 0
+
+/-- the staking module accounts hold exactly the tokens of the validators (and the unbonding entries) -/
+def poolProblems (o : Obs) : List String :=
+  let bonded := ((o.vals.filter (·.status == 3)).map (·.v.tokens)).sum
+  let notBonded := ((o.vals.filter (·.status != 3)).map (·.v.tokens)).sum + (o.ubds.map (·.balance)).sum
+  (if o.bondedPool == bonded then [] else [s!"bonded pool holds {o.bondedPool}, bonded validators have {bonded} tokens"]) ++
+  (if o.notBondedPool == notBonded then [] else [s!"not-bonded pool holds {o.notBondedPool}, unbonding entries and unbonded validators amount to {notBonded}"])
 
 def ubdKey (u : Ubd) : String := s!"{u.del}|{u.val}|h={u.height}|{u.balance}"
 
